@@ -235,6 +235,7 @@ corrected; none is listed as a finding and no correct check was loosened.
 | C18 | thorough tier: `hlp.interp` model = identity, implementation = half turn | the *result* of the interpolation was within rounding of a half turn, where the logarithm's branch is decided by the last bit (the known finding); only the relative rotation had been guarded | correspondence only when the inputs and the result stay 1e-2 / 1e-3 away from a half turn; the falsifier classifies the rest |
 | C10 | thorough tier (seed 2): 4 histories where the model could not consume the recorded solver outputs | the length corrective action rescales the shortest leg onto the limit itself and the FK that follows reproduces it to solver tolerance: the next `length < limit` is decided by the last bit, and the model (same formula, other evaluation order) went the other way | the recorder flags operations in which a leg-limit comparison was made within 1e-9 of the limit; a history is not compared past such a decision (counted in `histories_cut_at_a_last_bit_limit_decision`); the coherence / constraint falsifier still runs on it |
 | C17 | INFRASTRUCTURE-ERROR on a seeded change | the bounds-checked worker died when a set-up step between two recorded calls raised `IndexError`; the run was reported as broken machinery although the exception *was* the violation | set-up failures are recorded and classified like any other call |
+| C17 | thorough tier (seed 1): `compiled-differs:IKinSpace` 1e-4 | both executions had used up the 20-iteration budget without converging (joint values near 10..20 rad): a non-convergent Newton iteration amplifies the rounding difference between compiled and interpreted arithmetic without bound | when both runs report failure only the verdict is compared (counted in `ik_not_converged_verdict_only`) |
 | C13 | model/loader mismatch 6e-3 | documents with a rotation next to a half turn: the loader really is off there (known finding), the *correspondence* must not double-report it | such documents are classified (`fk:origin-near-half-turn`), left to the falsifier and matched by the open finding |
 '''
 
@@ -318,8 +319,8 @@ def section6():
            'Every entry below was produced by a check as a VIOLATION with a replay against the real code, then either repaired by one minimal unguarded `fix:` commit in `/repo` '
            '(the pinned 155-test baseline passes after each; `tools_baseline.sh`) or recorded as an open known finding.\n',
            '### 6.1 Open known findings (reported as `KNOWN-FINDING`, exit 0)\n',
-           'All four share one root cause, which cannot be repaired without breaking another property: `MatrixLog3` is the reference Modern Robotics algorithm, which extracts the angle from the trace; '
-           'next to π the trace is flat and half the digits are lost (and the 1e-6 `NearZero` snap is part of the same reference semantics). C02 pins the port to the reference to 1e-9, so a more accurate logarithm would violate C02.\n',
+           'They have two root causes, neither of which can be repaired without breaking another property. (1) `MatrixLog3` is the reference Modern Robotics algorithm, which extracts the angle from the trace; '
+           'next to π the trace is flat and half the digits are lost (C01, C03, C13, C18, C10-plate-pose-near-half-turn). (2) The 1e-6 `NearZero` cut-off of the exponential and the logarithm snaps rotations strictly inside (0, 1e-6) to the identity, which is part of the same reference semantics (C12, C05, C10-relative-rotation-band). C02 pins the port to the reference to 1e-9, so a more accurate logarithm or a removed cut-off would violate C02. Where the symptom could be removed one layer up without touching the kernels it was (`fix:` 89bbf50: the arm keeps its tool home by matrix products).\n',
            '| id | property | what fails | where |', '|---|---|---|---|']
     for f in kf:
         if f['status'] == 'open':
@@ -397,6 +398,8 @@ def section8():
         'C18g': 'whole-number screws typed as integers for chainJacobian',
         'C19g': 'the UDP history closes and re-opens a used endpoint and uses it again',
         'C20g': 'LaTeX cells are parsed back and compared with the rounded elements; scripted matrices at nd = 0, 1, 3 where rounding and truncation differ, and specials at nd = 0',
+        'C17f': '(caught by the translator\'s refusal only at first) the (kernel, layout) pairs the compiled kernels accept on the reference tree are pinned in harness/c17_layouts.json; a pair that is now rejected with a typing error while the interpreted source returns is reported with the input',
+        'C17g': '(as C17f)',
         'C11': 'small platforms placed up to 12 from the origin so that cond(invJ) reaches 1e3..1e4 (the upper part of the property\'s range)',
     }
     metas = [(os.path.basename(os.path.dirname(d)), json.load(open(d))) for d in sorted(glob.glob(os.path.join(V, 'seeded', '*', 'meta.json')))]
